@@ -6,7 +6,8 @@
     * lossy — when a MESSAGE call of a command failed (`undeliv`), the core's scheduler client drops its
       subscription, so replies of the other targets that had not arrived yet are lost: those targets then
       behave as `silent` (every such assignment is covered by the theorems, which quantify over all outcomes);
-    * early — TASK_RUNNING updates that overtake the roster (`Launch.okEarly`); only considered when the harness
+    * early — TASK_RUNNING updates that overtake the roster (`Launch.okEarly`) and/or the dropped "root is ACTIVE"
+      notification (`Workflow.notifyLost`) — the harness cannot tell the two apart; only considered when the harness
       attests that every task was running and acknowledged by the core well before DEPLOY gave up (`running-acked`);
     * watcherFirst — see `Trans.controlRpc`; only possible when a critical target went to ERROR / died in a
       command that some target keeps waiting for its time-out.
@@ -110,7 +111,7 @@ def gate (w : Bool) (tasks : List Task) : List SStep → List SStep
 
 /-- The harness cannot tell which updates overtook the roster: all of them, in the variant. -/
 def early (wf : Workflow) : Workflow :=
-  { wf with tasks := wf.tasks.map (fun t => if t.2 = .ok then (t.1, .okEarly) else t) }
+  { wf with tasks := wf.tasks.map (fun t => if t.2 = .ok then (t.1, .okEarly) else t), notifyLost := true }
 
 def variant (sc : Scenario) (lossy w : Bool) : Scenario :=
   let conf := if lossy then lose sc.configure else sc.configure
